@@ -349,6 +349,9 @@ def _guarded(mon: Monitor, cfg, workdir: str) -> None:
 
 
 PINNED = [
+    # incompressible tiles > 4 KiB x spill threshold 4 KiB: an un-started left section above the minimum write size merges with a right section that already spilled (C05-2)
+    dict(ny=256, nx=256, layout="YX", ns=1, dtype="uint8", chunks=[64, 64], band_chunk=1, nodata=None, blocksize=[64], compression="deflate", predictor=None, spill_sz=4096, writes_per_chunk=None, stats=False, bigtiff=True, scheduler="sync", workers=2, order_seed=14, data_seed=14, crs="EPSG:3857"),
+    dict(ny=256, nx=200, layout="SYX", ns=2, dtype="uint16", chunks=[64, 64], band_chunk=1, nodata=None, blocksize=[64, 32], compression="zstd", predictor=None, spill_sz=4096, writes_per_chunk=2, stats=True, bigtiff=True, scheduler="threads", workers=4, order_seed=15, data_seed=15, crs="EPSG:32633", dest="s3"),
     # default tile sizes derived from single-pixel dask chunks (D31)
     dict(ny=1, nx=1, layout="YX", ns=1, dtype="uint16", chunks=[1, 1], band_chunk=1, nodata=None, blocksize=None, compression="deflate", predictor=None, spill_sz=None, writes_per_chunk=None, stats=True, bigtiff=True, scheduler="sync", workers=2, order_seed=11, data_seed=11, crs="EPSG:3857"),
     dict(ny=1, nx=40, layout="YX", ns=1, dtype="int16", chunks=[1, 1], band_chunk=1, nodata=-9999, blocksize=None, compression="lzw", predictor=False, spill_sz=65536, writes_per_chunk=1, stats=True, bigtiff=True, scheduler="sync", workers=2, order_seed=12, data_seed=12, crs="EPSG:4326"),
